@@ -195,15 +195,20 @@ func runC07(c *Ctx) {
 				c.Check(!insideLoopBody(b), "O4", "MPT", fmt.Sprintf("%s: 'within boundaries' only after the walk (block %d)", funcKey(bounds), b.Index), instrPos(ret), "after the loop", "the boundary check accepts from inside the ancestor walk")
 			}
 		}
-		var quotaLE ssa.Instruction
-		for _, le := range instrsIn(bounds, func(in ssa.Instruction) bool {
+		// the tests may live in helpers called from the walk: they are searched through the functions the walk calls,
+		// and the loop rule is applied to the call that leads to them (the path search enters the helper)
+		var quotaLE, quotaSite ssa.Instruction
+		for _, h := range p.deepFind(bounds, func(in ssa.Instruction) bool {
 			cc, ok := in.(ssa.CallInstruction)
 			return ok && calleeOf(cc) != nil && calleeOf(cc).Name() == "LessEqual" && strings.Contains(termOf(cc.Common().Args[1]).String(), "GetDeservedShare")
-		}) {
-			quotaLE = le
+		}, 2) {
+			quotaLE, quotaSite = h.In, h.In
+			if len(h.Chain) > 0 {
+				quotaSite = h.Chain[0]
+			}
 		}
 		if c.Check(quotaLE != nil, "O4", "MPT", funcKey(bounds)+": non-preemptible quota test present", bounds.Pos(), "LessEqual(GetDeservedShare)", "the boundary walk no longer tests non-preemptible allocation against deserved quota") {
-			ok, path := everyIterationPassesR(quotaLE, func(in ssa.Instruction) bool { return in == quotaLE }, func(from, to *ssa.BasicBlock) bool {
+			ok, path := everyIterationPassesR(quotaSite, func(in ssa.Instruction) bool { return in == quotaLE }, func(from, to *ssa.BasicBlock) bool {
 				return !fx.edgeEstablishes(from, to, func(f Fact) bool { return f.Pol && f.T.lastField() == "IsPreemptable" })
 			}, func(r *ssa.Return) bool {
 				k, isC := r.Results[0].(*ssa.Const)
@@ -213,7 +218,7 @@ func runC07(c *Ctx) {
 			c.Check(ok, "O4", "MPT", funcKey(bounds)+": every ancestor is tested for a non-preemptible reclaimer", instrPos(quotaLE), "skipped only for a preemptible reclaimer", "an ancestor can be skipped by the non-preemptible quota test ("+pathStr(path)+")")
 		}
 		sat := p.Func(pkgReclaimable, "Reclaimable", "isFairShareSaturationLowerPerResource")
-		c.Check(len(instrsIn(bounds, isCallToFn(sat))) > 0, "O4", "MPT", funcKey(bounds)+": saturation compared with siblings", bounds.Pos(), "present", "the boundary walk no longer compares saturation with the sibling queues")
+		c.Check(len(p.deepFind(bounds, isCallToFn(sat), 2)) > 0, "O4", "MPT", funcKey(bounds)+": saturation compared with siblings", bounds.Pos(), "present", "the boundary walk no longer compares saturation with the sibling queues")
 	}
 
 	// ---- O5: saturation comparison and clamp
